@@ -12,20 +12,16 @@ Open Scope N_scope.
 (* ---- string constants ---------------------------------------------------------------------------
    Whatever the string is and whatever the dictionary decompression returns, the re-escaped
    text cannot close the literal: no raw double quote, no raw newline, it ends outside an
-   escape pair.  The only way it can fail to be the body of ONE well-terminated literal is
-   a raw carriage return (Python then rejects the whole module: C02's subject). *)
+   escape pair, and no raw carriage return either (which Python would read as the end of the
+   line): it is the body of ONE well-terminated literal. *)
 Theorem C18_string_closed : forall (undict : str -> str) s,
   dq_body_closed (escape_string (undict s)) = true.
 Proof. exact (fun undict s => escape_closed (undict s)). Qed.
 Print Assumptions C18_string_closed.
 
-Theorem C18_string_partial : forall s, mem 13 s = false -> dq_body_ok (escape_string s) = true.
-Proof. exact escape_strict. Qed.
-Print Assumptions C18_string_partial.
-
-Theorem C18_string_refuted : exists s, dq_body_ok (escape_string s) = false.
-Proof. exact escape_strict_cr_refuted. Qed.
-Print Assumptions C18_string_refuted.
+Theorem C18_string : forall (undict : str -> str) s, dq_body_ok (escape_string (undict s)) = true.
+Proof. exact (fun undict s => escape_strict_all (undict s)). Qed.
+Print Assumptions C18_string.
 
 (* ---- identifiers: the character classes are re-read from the re.sub calls on every run ---------- *)
 Theorem C18_ident_for : forall name, ident_ok (keep re_keep_for name) = true.
